@@ -14,7 +14,7 @@ ASSUMPTIONS = [
     "non-root block is finalized",
 ]
 META = {
-    "text": "see props/C07.py: Coq theorems = the flag part of Inv_tree (proper tree, heights, FAILED_CHILD <=> failed parent, "
+    "text": "see props/C07.py: Coq theorems = the flag part of Inv_tree (proper tree, heights, failed parent => FAILED_CHILD, "
             "live blocks >= VALID_TREE) for init and for inv/reval/rm/setState steps of both trees, lifted over op lists "
             "(_partial: tips/active-chain/connected conjuncts and hdr/body/rmpl steps are not proved); the full invariant list "
             "of harness/invariants.hpp (S1-S3 V1-V3 F1 T1 C1 C2 P1 P2 R1) is evaluated on the implementation after EVERY step of "
